@@ -27,6 +27,8 @@ def seed_numbers(rng, node):
     def f(n):
         if isinstance(n, Cls) and rng.random() < .5:
             return Cls(rng.choice(('float', 'complex', 'float')))
+        if isinstance(n, hints.TypeH) and n.class_names and rng.random() < .6:
+            return hints.TypeH(sorted(set(n.class_names) | {rng.choice(('float', 'complex'))}), n.typing_spelling)
         return None
     return hints.rebuild(node, f)
 
@@ -37,6 +39,10 @@ def tower_rewrite(node):
             return UnionH([Cls('float'), Cls('int')])
         if isinstance(n, Cls) and n.name == 'complex':
             return UnionH([Cls('complex'), Cls('float'), Cls('int')])
+        if isinstance(n, hints.TypeH) and ({'float', 'complex'} & set(n.class_names)):
+            # the tower reaches into type[...] too: type[float | str] stands for type[float | int | str]
+            names = set(n.class_names) | {'int'} | ({'float'} if 'complex' in n.class_names else set())
+            return hints.TypeH(sorted(names), n.typing_spelling)
         return None
     return hints.rebuild(node, f)
 
